@@ -100,6 +100,74 @@ def rand_argument(rng, *, modal=False, quant=False, ident=False, depth=3, max_pr
     return prem, conc
 
 
+def schema_argument(rng, *, modal=False, quant=False, ident=False, depth=2):
+    """An argument built from an inference schema instantiated with random subsentences: premises that INTERACT (so that
+    premise order, options and instantiation order can matter) and a good share of valid arguments in most logics —
+    valid or not, the checks only compare verdicts of related runs."""
+    O = Operator
+    def S(d=None):
+        return rand_sentence(rng, rng.randint(0, depth) if d is None else d, modal=modal, quant=False, ident=False)
+    def neg(x): return Operated(O.Negation, (x,))
+    def b2(o, x, y): return Operated(o, (x, y))
+    def box(x): return Operated(O.Necessity, (x,))
+    def dia(x): return Operated(O.Possibility, (x,))
+    A, B, C = S(), S(), S()
+    cond = rng.choice([O.Conditional, O.MaterialConditional])
+    props = [
+        lambda: ([A, b2(cond, A, B)], B),
+        lambda: ([b2(cond, A, B), neg(B)], neg(A)),
+        lambda: ([b2(O.Disjunction, A, B), neg(A)], B),
+        lambda: ([b2(O.Conjunction, A, B)], b2(O.Conjunction, B, A)),
+        lambda: ([b2(cond, A, B), b2(cond, B, C)], b2(cond, A, C)),
+        lambda: ([A, neg(A)], B),
+        lambda: ([neg(b2(O.Disjunction, A, B))], b2(O.Conjunction, neg(A), neg(B))),
+        lambda: ([b2(O.Biconditional, A, B), A], B),
+        lambda: ([A, B, C], b2(O.Conjunction, A, b2(O.Conjunction, B, C))),
+        lambda: ([b2(O.Disjunction, A, B), b2(cond, A, C), b2(cond, B, C)], C),
+    ]
+    modals = [
+        lambda: ([box(A)], A),
+        lambda: ([A], dia(A)),
+        lambda: ([A, neg(dia(A))], B),
+        lambda: ([box(b2(cond, A, B)), box(A)], box(B)),
+        lambda: ([dia(A), box(B)], dia(b2(O.Conjunction, A, B))),
+        lambda: ([A, neg(dia(A)), neg(box(b2(O.Disjunction, A, B)))], C),
+        lambda: ([box(A)], box(box(A))),
+        lambda: ([dia(dia(A))], dia(A)),
+        lambda: ([dia(A)], box(dia(A))),
+        lambda: ([box(A), dia(B)], dia(b2(O.Conjunction, B, A))),
+        lambda: ([neg(box(A))], dia(neg(A))),
+    ]
+    P1 = rng.choice([F, G]); P2 = rng.choice([F, G]); c = rng.choice(CONSTS); c2 = rng.choice(CONSTS)
+    U, E = Quantifier.Universal, Quantifier.Existential
+    quants = [
+        lambda: ([Quantified(U, X, b2(cond, P1(X), R2(X, c))), P1(c)], R2(c, c)),
+        lambda: ([Quantified(U, X, P1(X))], P1(c)),
+        lambda: ([P1(c)], Quantified(E, X, P1(X))),
+        lambda: ([Quantified(U, X, b2(cond, P1(X), P2(X))), P1(c)], P2(c)),
+        lambda: ([Quantified(U, X, b2(cond, P1(X), P2(X))), Quantified(E, X, P1(X))], Quantified(E, X, P2(X))),
+        lambda: ([Quantified(E, X, b2(O.Conjunction, P1(X), P2(X)))], Quantified(E, X, P1(X))),
+        lambda: ([Quantified(U, X, Quantified(U, Y, R2(X, Y)))], R2(c, c2)),
+        lambda: ([Quantified(U, X, R2(X, c)), neg(R2(c2, c))], B),
+        lambda: ([neg(Quantified(E, X, P1(X)))], neg(P1(c))),
+        lambda: ([Quantified(U, X, b2(O.Disjunction, P1(X), A)), neg(A)], P1(c)),
+    ]
+    pool = list(props)
+    if modal:
+        pool += modals * 2
+    if quant:
+        pool += quants * 2
+    if modal and quant:
+        pool += [lambda: ([box(Quantified(U, X, P1(X)))], box(P1(c))), lambda: ([Quantified(U, X, box(P1(X)))], box(P1(c))),
+                 lambda: ([dia(P1(c))], dia(Quantified(E, X, P1(X))))]
+    prem, conc = rng.choice(pool)()
+    if rng.random() < 0.3:
+        prem = prem + [S()]
+    if rng.random() < 0.5:
+        rng.shuffle(prem)
+    return prem, conc
+
+
 def job_for(idx, logic, prem, conc, opts=None, **kw):
     return dict(id=idx, logic=logic, premises=[wire.enc_sent(p) for p in prem], conclusion=wire.enc_sent(conc),
                 opts=opts or {}, **kw)
